@@ -65,7 +65,8 @@ def run_cicada(line=None, script=None, timeout=6, files=None, args=()):
             open(sp, 'w').write(script)
             cmd = [b, sp] + list(args)
         else:
-            cmd = [b, '-c', line]
+            # {CICADA}: the binary under test itself (for lines that run a second shell with its own descriptors)
+            cmd = [b, '-c', line.replace('{CICADA}', b)]
         try:
             p = subprocess.run(cmd, cwd=d, env=env, capture_output=True, timeout=timeout, stdin=subprocess.DEVNULL)
             return {'rc': p.returncode, 'stdout': p.stdout.decode('utf-8', 'replace'),
